@@ -170,8 +170,9 @@ static size_t ovr_req(const char* ep, long n) {
   return n < 0 ? 0 : (size_t)n;
 }
 
+static int ovr_huge_variant = 0;      /* which unsatisfiable size a request with n < 0 stands for */
 static void* ovr_do_alloc(const char* ep, long n_, size_t al, int* rc, int* outkeep) {
-  size_t n = (n_ < 0 ? (size_t)SIZE_MAX / 2 + 4096 : (size_t)n_);
+  size_t n = (n_ < 0 ? (ovr_huge_variant == 1 ? SIZE_MAX - 100 : ovr_huge_variant == 2 ? SIZE_MAX - ((size_t)ovr_page - 2) : (size_t)SIZE_MAX / 2 + 4096) : (size_t)n_);
   size_t cnt, sz;
   *rc = 0; *outkeep = 1;
   if (ovr_streq(ep, "malloc")) return malloc(n);
@@ -258,6 +259,15 @@ static void ovr_step_failnew(const char* ep, size_t al) {
 
 /* one step: an allocating entry point */
 static void ovr_step_alloc(const char* ep, long n, size_t al) {
+  static int in_variants = 0;
+  if (n < 0 && strncmp(ep, "new", 3) != 0 && !in_variants) {
+    /* an unsatisfiable size stands for three requests: SIZE_MAX/2 + 4096, SIZE_MAX - 100, SIZE_MAX - (page - 2) -- for the last two
+       rounding up to a page or to an alignment wraps around */
+    in_variants = 1;
+    for (int v = 0; v < 3; v++) { ovr_huge_variant = v; ovr_step_alloc(ep, n, al); }
+    in_variants = 0; ovr_huge_variant = 0;
+    return;
+  }
   int rid = ovr_nextrid++;
   if (rid >= OVR_MAXB) return;
   if (n < 0 && strncmp(ep, "new", 3) == 0) { ovr_step_failnew(ep, al); return; }
@@ -315,6 +325,10 @@ static void ovr_step_release(const char* ep, int rid, long n, size_t al) {
   if (ovr_is_resize(ep)) {
     if (ovr_streq(ep, "realloc_zero")) n = 0;
     if (ovr_streq(ep, "reallocarray_ovf")) n = -1;
+    /* a block that came from an aligned entry point may sit at an offset inside its block: every second time it is grown to just above
+       its usable size (the smallest growth that cannot stay in place) */
+    { static unsigned grow_toggle = 0;
+      if (ovr_streq(ep, "realloc") && old.al >= 32 && old.us > 0 && old.us < ((size_t)1 << 28) && (grow_toggle++ % 2) == 0) n = (long)(old.us + 1 + (size_t)((grow_toggle / 2) % 3)); }
     ovr_log_call(ep, old.id, n, 0, 0, ovr_used());
     memset(b, 0, sizeof(*b));
     void* q; size_t cnt, sz; errno = 0;
